@@ -1,19 +1,24 @@
 #!/bin/sh
 # cross-property matrix: every seeded change x every claimed check, on scratch copies (never /repo).
 # usage: tools/matrix.sh [mutant ...]   -> build/matrix/<mutant>.txt
-cd /verif
-mkdir -p build/matrix
+# runs from a snapshot copy of /verif (so contracts under development do not leak into the results)
+SNAP=/tmp/verif-snap-$$
+rsync -a --exclude build --exclude replays --exclude .git /verif/ $SNAP/
+mkdir -p /verif/build/matrix $SNAP/build
+OUTD=/verif/build/matrix
+cd $SNAP
 MUTS="$@"
 [ -z "$MUTS" ] && MUTS=$(ls seeded)
 PROPS=$(python3 -c "import json;print(' '.join(c['property_id'] for c in json.load(open('MANIFEST.json'))['checks']))")
 for m in $MUTS; do
   S=$(mktemp -d /tmp/verif-matrix-XXXXXX)
   cp -r /repo/src /repo/Cargo.toml /repo/Cargo.lock "$S"/ 2>/dev/null
-  (cd "$S" && git apply --include='src/*' /verif/seeded/$m/patch.diff) || { echo "$m: patch does not apply" > build/matrix/$m.txt; rm -rf "$S"; continue; }
-  : > build/matrix/$m.txt
+  (cd "$S" && git apply --include='src/*' /verif/seeded/$m/patch.diff) || { echo "$m: patch does not apply" > $OUTD/$m.txt; rm -rf "$S"; continue; }
+  : > $OUTD/$m.txt
   for p in $PROPS; do
     out=$(./check $p --repo "$S" --no-evidence 2>&1 | grep -E "^OK|^VIOLATION|UNDECIDED|^FAILED OBLIGATION" | tr '\n' ' ' | sed "s#$S#SCRATCH#g" | cut -c1-400)
-    echo "$m $p $out" >> build/matrix/$m.txt
+    echo "$m $p $out" >> $OUTD/$m.txt
   done
   rm -rf "$S"
 done
+rm -rf $SNAP
